@@ -230,6 +230,7 @@ def _valid_words(g):
     for Q in pts:
         for pt in (Q, BLS.neg(g, Q)):
             out.append(B.compress_g1(pt) if g == "G1" else B.compress_g2(pt))
+    out.append(B.compress_g1(None) if g == "G1" else B.compress_g2(None))     # the infinity word is a mutation base too
     return out
 
 
@@ -261,6 +262,9 @@ def grid_g2():
     oc = _off_curve_x("G2")
     pairs = {(0, 0), (0, 1), (1, 0), (P - 1, P - 1), (P, 0), (0, P), (P + 1, 1), ((1 << 381) - 1, 0),
              (0, (1 << 381) - 1), (oc[1], oc[0])}
+    for k in range(1, 8):
+        pairs.add((0, k << 381))              # flag bits only in the second word, zero coordinate bits
+        pairs.add((1, k << 381))
     for (z1, z2) in valid:
         x1 = z1 & B.MASK381
         pairs.add((x1, z2))
